@@ -10,6 +10,15 @@ import (
 // copies the files the translator reads into a scratch tree, optionally editing node_group.go
 func scratchRepo(t *testing.T, edit func(string) string) string {
 	t.Helper()
+	if edit == nil {
+		return scratchRepoFiles(t, nil)
+	}
+	return scratchRepoFiles(t, map[string]func(string) string{"pkg/controller/node_group.go": edit})
+}
+
+// the same with edits keyed by file (relative path); an edit that returns "" removes the file
+func scratchRepoFiles(t *testing.T, edits map[string]func(string) string) string {
+	t.Helper()
 	src := verifRepo()
 	dst := t.TempDir()
 	for _, rel := range []string{"go.mod", "docs/configuration/nodegroup.md", "pkg/controller/node_group.go", "pkg/controller/scale_down.go",
@@ -19,8 +28,15 @@ func scratchRepo(t *testing.T, edit func(string) string) string {
 			t.Skipf("source tree not available: %v", err)
 		}
 		text := string(data)
-		if rel == "pkg/controller/node_group.go" && edit != nil {
-			text = edit(text)
+		if ed := edits[rel]; ed != nil {
+			text2 := ed(text)
+			if text2 == text {
+				t.Fatalf("edit of %s changed nothing", rel)
+			}
+			text = text2
+			if text == "" {
+				continue
+			}
 		}
 		p := filepath.Join(dst, rel)
 		if err := os.MkdirAll(filepath.Dir(p), 0o755); err != nil {
@@ -32,6 +48,29 @@ func scratchRepo(t *testing.T, edit func(string) string) string {
 	}
 	return dst
 }
+
+// every `Definition <name> ` of a Generated.v text, with what it is defined as: "ok" or "marker"
+func genDefs(out string) map[string]string {
+	defs := map[string]string{}
+	for _, l := range strings.Split(out, "\n") {
+		if !strings.HasPrefix(l, "Definition ") {
+			continue
+		}
+		name := strings.Fields(strings.TrimPrefix(l, "Definition "))[0]
+		if strings.Contains(l, ": gen_item_untranslated := GenItemUntranslated.") {
+			defs[name] = "marker"
+		} else {
+			defs[name] = "ok"
+		}
+	}
+	return defs
+}
+
+// the names Generated.v always defines (as a value or as the typed marker)
+var genNames = []string{"gen_attach_batch_z", "gen_attach_batch", "gen_terminate_batch_z", "gen_terminate_batch", "gen_max_tries",
+	"gen_esc_key", "gen_force_key", "gen_nodelete_key", "gen_default_group", "gen_lifecycle_on_demand", "gen_lifecycle_spot", "gen_default_taint_effect",
+	"gen_tag_table", "gen_json_tags", "gen_yaml_tags", "gen_aws_tag_table", "gen_aws_json_tags", "gen_aws_yaml_tags",
+	"gen_documented_keys", "gen_documented_aws_keys", "gen_rules", "gen_rule_src", "gen_rule_msg", "gen_validate", "gen_rules_untranslated", "gen_untranslated"}
 
 func TestGenDeterministicAndComplete(t *testing.T) {
 	repo := scratchRepo(t, nil)
@@ -47,13 +86,21 @@ func TestGenDeterministicAndComplete(t *testing.T) {
 		t.Fatal("output differs between two runs")
 	}
 	for _, want := range []string{"Definition gen_attach_batch_z : Z := ", "Definition gen_esc_key : string := ", "Definition gen_rules : list (cfg -> bool) := [",
-		"Definition gen_documented_keys", "Definition gen_tag_table", "gen_default_taint_effect"} {
+		"Definition gen_documented_keys", "Definition gen_tag_table", "gen_default_taint_effect", "Definition gen_rules_untranslated : list string := [].", "Definition gen_untranslated : list string := []."} {
 		if !strings.Contains(a, want) {
 			t.Errorf("output lacks %q", want)
 		}
 	}
+	defs := genDefs(a)
+	for _, n := range genNames {
+		if defs[n] != "ok" {
+			t.Errorf("%s: %q, expected a translated definition", n, defs[n])
+		}
+	}
 }
 
+// a statement of ValidateNodeGroup outside the grammar: an error naming the position; the file is still produced, the rule
+// (if it is one) reads `true`, the message is listed in gen_untranslated and every other item is translated
 func TestGenRejectsOutsideGrammar(t *testing.T) {
 	for name, edit := range map[string]func(string) string{
 		"function call": func(s string) string {
@@ -70,10 +117,116 @@ func TestGenRejectsOutsideGrammar(t *testing.T) {
 		},
 	} {
 		repo := scratchRepo(t, edit)
-		if _, err := generateText(repo); err == nil {
+		out, err := generateText(repo)
+		if err == nil {
 			t.Errorf("%s: translation succeeded, expected an error naming the construct", name)
-		} else if !strings.Contains(err.Error(), "node_group.go:") {
-			t.Errorf("%s: error does not name the position: %v", name, err)
+			continue
+		}
+		if _, partial := err.(*partialError); !partial {
+			t.Errorf("%s: not a partial translation: %v", name, err)
+		}
+		if !strings.Contains(err.Error(), "gen_rules: pkg/controller/node_group.go:") {
+			t.Errorf("%s: error does not name the item and the position: %v", name, err)
+		}
+		defs := genDefs(out)
+		for _, n := range genNames {
+			if defs[n] != "ok" {
+				t.Errorf("%s: %s: %q (a statement outside the grammar must not cost any item)", name, n, defs[n])
+			}
+		}
+		if strings.Contains(out, "Definition gen_untranslated : list string := [].") || !strings.Contains(out, "\"gen_rules: pkg/controller/node_group.go:") ||
+			strings.Contains(out, "Definition gen_rules_untranslated : list string := [].") {
+			t.Errorf("%s: gen_untranslated does not list the statement", name)
+		}
+		if name != "statement" && !strings.Contains(out, "(fun c => true)") {
+			t.Errorf("%s: the untranslatable rule is not emitted as `true`", name)
+		}
+	}
+}
+
+// item-level partial mode: an item the translator cannot derive is emitted as the typed marker, it ALONE (with the
+// definitions derived from it), and named in gen_untranslated; the rest of the file is what it is on the unchanged tree
+func TestGenItemsAreIndependent(t *testing.T) {
+	base, err := generateText(scratchRepo(t, nil))
+	if err != nil {
+		t.Fatal(err)
+	}
+	baseLines := map[string]string{}
+	for _, l := range strings.Split(base, "\n") {
+		if strings.HasPrefix(l, "Definition ") {
+			baseLines[strings.Fields(strings.TrimPrefix(l, "Definition "))[0]] = l
+		}
+	}
+	rep := func(old, new string) func(string) string {
+		return func(s string) string { return strings.Replace(s, old, new, 1) }
+	}
+	for _, c := range []struct {
+		label, file string
+		edit        func(string) string
+		markers     []string
+		msg         string
+	}{
+		// refactoring R5: the default effect moves into a helper
+		{"default effect in a helper", "pkg/k8s/taint.go",
+			func(s string) string {
+				s = strings.Replace(s, "\teffect := apiv1.TaintEffectNoSchedule\n\tif len(taintEffect) > 0 {\n\t\teffect = taintEffect\n\t}\n", "", 1)
+				s = strings.Replace(s, "Effect: effect,", "Effect: taintEffectOrDefault(taintEffect),", 1)
+				return s + "\nfunc taintEffectOrDefault(e apiv1.TaintEffect) apiv1.TaintEffect {\n\tif e == \"\" {\n\t\treturn apiv1.TaintEffectNoSchedule\n\t}\n\treturn e\n}\n"
+			},
+			[]string{"gen_default_taint_effect"}, "gen_default_taint_effect: pkg/k8s/taint.go:"},
+		// refactoring R4: the frame of ValidateNodeGroup is not the one the translator reads
+		{"validator frame", "pkg/controller/node_group.go", rep("\tvar problems []error\n", "\tproblems := []error{}\n"),
+			[]string{"gen_rules", "gen_rule_src", "gen_rule_msg", "gen_validate", "gen_rules_untranslated"}, "gen_rules: pkg/controller/node_group.go:"},
+		{"constant out of range", "pkg/cloudprovider/aws/aws.go", rep("\tbatchSize = 20\n", "\tbatchSize = 200000\n"),
+			[]string{"gen_attach_batch_z", "gen_attach_batch"}, "gen_attach_batch_z: pkg/cloudprovider/aws: constant batchSize is not an integer in [0, 100000]"},
+		{"constant gone", "pkg/k8s/taint.go", rep("ToBeForceRemovedByAutoscalerKey =", "ToBeForceRemovedByAutoscalerKeyX ="),
+			[]string{"gen_force_key"}, "gen_force_key: pkg/k8s: constant ToBeForceRemovedByAutoscalerKey not found"},
+		{"options struct renamed", "pkg/controller/node_group.go", func(s string) string { return strings.ReplaceAll(s, "AWSNodeGroupOptions", "AwsOptions") },
+			[]string{"gen_aws_tag_table", "gen_aws_json_tags", "gen_aws_yaml_tags"}, "gen_aws_tag_table: pkg/controller: type AWSNodeGroupOptions not found"},
+		{"documentation gone", "docs/configuration/nodegroup.md", func(string) string { return "" },
+			[]string{"gen_documented_keys", "gen_documented_aws_keys"}, "gen_documented_keys: "},
+	} {
+		out, err := generateText(scratchRepoFiles(t, map[string]func(string) string{c.file: c.edit}))
+		if err == nil {
+			t.Errorf("%s: translation succeeded", c.label)
+			continue
+		}
+		if _, partial := err.(*partialError); !partial || !strings.Contains(err.Error(), c.msg) {
+			t.Errorf("%s: expected a partial translation naming %q: %v", c.label, c.msg, err)
+		}
+		want := map[string]bool{}
+		for _, m := range c.markers {
+			want[m] = true
+		}
+		defs := genDefs(out)
+		for _, n := range genNames {
+			switch {
+			case want[n] && defs[n] != "marker":
+				t.Errorf("%s: %s is %q, expected the typed marker", c.label, n, defs[n])
+			case !want[n] && defs[n] != "ok":
+				t.Errorf("%s: %s is %q although only %v could not be derived", c.label, n, defs[n], c.markers)
+			case !want[n] && n != "gen_untranslated" && c.label != "options struct renamed":
+				// untouched items are byte-identical to the unchanged tree's
+				for _, l := range strings.Split(out, "\n") {
+					if strings.HasPrefix(l, "Definition "+n+" ") && l != baseLines[n] {
+						t.Errorf("%s: %s changed:\n%s\n%s", c.label, n, baseLines[n], l)
+					}
+				}
+			}
+		}
+		if !strings.Contains(out, "\""+c.markers[0]+": ") {
+			t.Errorf("%s: gen_untranslated does not name %s", c.label, c.markers[0])
+		}
+	}
+	// no source tree at all: the file is still a well-formed module, every item the marker
+	out, err := generateText(filepath.Join(t.TempDir(), "nowhere"))
+	if _, partial := err.(*partialError); !partial {
+		t.Fatalf("missing tree: expected a partial translation: %v", err)
+	}
+	defs := genDefs(out)
+	for _, n := range genNames {
+		if n != "gen_untranslated" && defs[n] != "marker" {
+			t.Errorf("missing tree: %s is %q", n, defs[n])
 		}
 	}
 }
